@@ -17,7 +17,11 @@
                    operator has delivered everything its input so far determines, and the
                    terminal operator has returned IF AND ONLY IF its result is determined
                    (laziness: Head(n) lets its successor go after n items, First/AnyMatch/...
-                   do not wait for the source; termination: nothing else is stuck)
+                   do not wait for the source; termination: nothing else is stuck).
+                   Sort / Reverse / Merge / Group read their whole input inside the method
+                   call: the API promises neither that nor the opposite, so behind such an
+                   operator whose input is still open the demands are relaxed (MayBlock):
+                   the later stages may not exist yet, the call need not have returned
      PEnd(leaked)  source exhausted, call over, everything at rest: every tap is closed
                    and complete (every upstream was drained) and no goroutine is left.   *)
 EXTENDS FxOps
@@ -96,9 +100,17 @@ PReturn(r) ==
 
 SourceAtRest == IF gate < 0 \/ rel THEN seen[1] = src /\ closed[1]
                 ELSE seen[1] = Take(src, gate) /\ ~closed[1]
-StagesAtRest == \A i \in 1..K : Live(i) => Maximal(ops[i], seen[i], closed[i], seen[i+1], closed[i+1])
-CallAtRest == IF Live(K) THEN (call = "returned") <=> Determined(term, seen[K+1], closed[K+1])
-              ELSE call # "returned"
+\* an operator behind a constructor that may still be blocked may not exist yet
+MayBlock(n) == \E j \in 1..n : ops[j].op \in Blocking /\ ~closed[j]
+FirstPanic == CHOOSE i \in 1..K : PanicsOn(ops[i]) /\ Live(i-1)
+StagesAtRest == \A i \in 1..K : Live(i) =>
+                  \/ Maximal(ops[i], seen[i], closed[i], seen[i+1], closed[i+1])
+                  \/ MayBlock(i-1) /\ seen[i+1] = <<>> /\ ~closed[i+1]
+CallAtRest == IF Live(K)
+              THEN /\ call = "returned" => Determined(term, seen[K+1], closed[K+1])
+                   /\ (Determined(term, seen[K+1], closed[K+1]) /\ ~MayBlock(K)) => call = "returned"
+              ELSE /\ call # "returned"
+                   /\ ~MayBlock(FirstPanic - 1) => call = "panicked"
 AtRest == SourceAtRest /\ StagesAtRest /\ CallAtRest
 PQuiet == phase = "run" /\ AtRest /\ UNCHANGED vars
 PEnd(leaked) ==
